@@ -1,3 +1,5 @@
+#[cfg(renoir_verif)]
+use simrt::stdshim as std;
 use std::fmt::Display;
 use std::fs::File;
 use std::io;
